@@ -59,8 +59,14 @@ def hdlc_oracle(case) -> Info:
     stuffing, abort, nkind, narg, seed, n, size_class, cuts = case
     cuts = tuple(cuts)
     noise = expand_noise(nkind, narg, seed, stuffing)
-    lo, hi = {"small": (4, 24), "medium": (40, 250)}[size_class]
+    lo, hi = {"small": (4, 24), "medium": (40, 250), "large-dense": (4, 24)}[size_class]
     frames = resync.clean_frames(n, stuffing, abort, seed, min_info=lo, max_info=hi)
+    if size_class == "large-dense":
+        # frames close to the 2047-octet maximum whose information field is dense in 7E/7D (much longer on the wire when stuffed)
+        rnd = random.Random(seed ^ 0xD15E)
+        for k in range(1, len(frames), 2):
+            info = bytes([0xE6, 0xE7, 0x00]) + f"{k:04d}".encode() + bytes(rnd.choice([0x7E, 0x7D, 0x7E, 0x11, 0x5E]) for _ in range(rnd.choice([1500, 1900, 2030])))
+            frames[k] = GH.build_frame(0xA, 0, b"\x01", b"\x01", 0x10, info)
     tail, starts = resync.frames_tail(frames, stuffing, seed)
     stream = noise + tail
     if stuffing:
@@ -68,10 +74,12 @@ def hdlc_oracle(case) -> Info:
     else:
         must = [f for f, s in zip(frames, starts) if s > 2047 + len(f)]
     reader = hdlc.HdlcFrameReader(use_octet_stuffing=stuffing, use_abort_sequence=abort)
+    bystander = hdlc.HdlcFrameReader(use_octet_stuffing=stuffing, use_abort_sequence=True)  # another instance in use at the same time
     valid = []
     state_after_noise = None
     fed = 0
-    for ch in GH.split(stream, cuts):
+    for k, ch in enumerate(GH.split(stream, cuts)):
+        guarded(bystander.read, (b"\x7e\xa0\x10\x01\x01\x10\x7d", b"\x5d\x01\x7d", b"\x7e\x7d")[k % 3], what="HdlcFrameReader.read (bystander)")
         for fr in guarded(reader.read, ch, what="HdlcFrameReader.read"):
             if guarded(lambda fr=fr: fr.is_valid):
                 valid.append(guarded(lambda fr=fr: fr.as_bytes))
@@ -97,7 +105,9 @@ def hdlc_case_st(draw):
     nkind = draw(st.sampled_from(HDLC_NOISE))
     if stuffing:
         n = draw(st.sampled_from([2, 3, 4, 5]) | st.integers(2, 40))
-        size = draw(st.sampled_from(["small", "small", "medium"]))
+        size = draw(st.sampled_from(["small", "small", "medium", "large-dense"]))
+        if size == "large-dense":
+            n = min(n, 6)
     else:
         n = draw(st.sampled_from([20, 30, 40]) | st.integers(12, 40))
         size = "medium"
@@ -167,8 +177,10 @@ def p1_oracle(case) -> Info:
     readouts = resync.clean_readouts(n, seed)
     stream = noise + b"".join(readouts)
     reader = dlde.ModeDReader()
+    bystander = dlde.ModeDReader()  # another instance in use at the same time
     valid = []
-    for ch in GH.split(stream, cuts):
+    for k, ch in enumerate(GH.split(stream, cuts)):
+        guarded(bystander.read, (b"/ABC5by\r\n", b"1-0:1.7.0(1*kW)\r\n", b"!\r\n", b"/XYZ")[k % 4], what="ModeDReader.read (bystander)")
         for ro in guarded(reader.read, ch, what="ModeDReader.read"):
             if guarded(lambda ro=ro: ro.is_valid):
                 valid.append(guarded(lambda ro=ro: ro.as_bytes))
@@ -199,7 +211,7 @@ def build() -> Check:
             "hdlc: noise prefix from 12 families (random bytes, flag + start of a genuine frame, prefix ending in 7D, frame then 7D 7E abort "
             "sequence(s), complete frame + flag + 7D, header announcing 2047 octets, truncated second frame, >2047 flag-free octets, flags, "
             "7E/7D-dense bytes) followed by 2..40 sequence-numbered clean frames delimited by shared or double flags (flag-free without "
-            "stuffing), x splittings x 4 configurations; must-deliver set = all but the first (stuffing) / frames starting more than "
+            "stuffing; with stuffing also frames near the 2047-octet maximum whose payload is dense in 7E/7D), x splittings x 4 configurations; must-deliver set = all but the first (stuffing) / frames starting more than "
             "2047 + own length octets after the noise (no stuffing). p1: 19 noise families (random, identification line only / with "
             "data lines / without LF, '/' + >8 KiB without LF, >8 KiB without LF, truncated readout, readout tail, lone end line, "
             "non-ASCII identification, identification + >8 KiB line, many identification lines, complete readouts with a non-ASCII / non-hexadecimal "
@@ -209,6 +221,7 @@ def build() -> Check:
             "first clean message is in fact lost, or P1 noise > 8191 bytes). Distinct = case hash."
         ),
         assumptions=[
+            "A second reader instance (bystander) is fed unrelated fragments between the calls: instances must not share state.",
             "Clean frames are in C02's domain for the configuration and, without stuffing, contain no 7E at all (C16's 'flag-free frame').",
             "Noise is followed directly by the opening flag of the first clean frame / the '/' of the first clean readout.",
         ],
